@@ -98,11 +98,26 @@ func creatorName() (string, uint64) {
 				}
 			}
 		}
+		// the line of the go statement tells apart goroutines that one function
+		// starts at different places (their adoption order is not scheduled)
+		line := ""
+		if j := strings.Index(s, "\n"); j >= 0 {
+			rest := s[j+1:]
+			if k := strings.Index(rest, "\n"); k >= 0 {
+				rest = rest[:k]
+			}
+			if k := strings.LastIndex(rest, ":"); k >= 0 {
+				line = rest[k:]
+				if sp := strings.IndexByte(line, ' '); sp >= 0 {
+					line = line[:sp]
+				}
+			}
+		}
 		if j := strings.IndexAny(s, " \n"); j >= 0 {
 			s = s[:j]
 		}
 		s = strings.TrimPrefix(s, "github.com/sassoftware/relic/v8/")
-		return s, parent
+		return s + line, parent
 	}
 	return "root", 0
 }
